@@ -1,5 +1,6 @@
 import Tickit.Model.TermPen
 import Tickit.Model.TermSuspend
+import Tickit.Model.SgrStrict
 import Tickit.Gen.TermBuf
 import Tickit.Driver.Common
 /-
@@ -11,6 +12,8 @@ import Tickit.Driver.Common
     suspend        tickit_term_pause then tickit_term_resume (`Model/TermSuspend.lean`); the logical pen is unchanged, so the
                    terminal — after the bytes of pause (which reset the rendering attributes) and of resume — must again render
                    with it.  Configuration `g`: the harness's driver stands for the xterm driver, whose `pause` writes `ESC [ m`.
+    print <word>   tickit_term_printf(tt, "%s", word): the text goes to the terminal as it is (x: `b=` its bytes; g: `t=` what the
+                   driver's `print` was handed); not a pen request — the rendering attributes must stay what the logical pen asks for.
   Model observation = what harness/sgr.c prints.  Specification verdict: the SGR interpreter of
   `Model/Sgr.lean` is run on the bytes the *implementation* emitted (configuration `x`), or on the
   bytes the modelled xterm encoder produces from the (delta, final) pens the *implementation* handed
@@ -19,6 +22,11 @@ import Tickit.Driver.Common
   "change-pen overlays only the attributes present in its argument" is also judged on its own (`frameDiff`): the bytes of a
   `chpen` must leave every rendering attribute whose pen attribute is absent from the argument as it was — whatever state the
   terminal was in (so also when an earlier request could not be encoded).
+  "The rendering state is determined by the SGR bytes emitted for setpen/chpen" also means that a pen request emits SGR
+  sequences and nothing else (`Model/SgrStrict.lean`, `strictDiff`): a byte that reaches the terminal outside a control sequence
+  is printed at the cursor or executed as a C0 control — the pen request drew something — and a sequence that is not an SGR
+  changes some other state.  Judged on the implementation's bytes of every request (configuration `x`); for `suspend` only the
+  bytes outside sequences are judged (which mode sequences pause and resume write is C12's business).
 -/
 namespace Tickit.Driver.SgrEngine
 open Tickit Tickit.Driver Tickit.TermPen Tickit.Sgr
@@ -130,11 +138,22 @@ def frameDiff (p : Pen) (before after : Attrs) : String :=
     chg "sizepos" p.sizepos.isNone (before.sizepos ≠ after.sizepos) (showSizePos before.sizepos) (showSizePos after.sizepos)]
   (cs.filterMap id).headD ""
 
+/-- A pen request (or pause + resume) must put nothing on the terminal but control sequences, and a pen request nothing but
+    SGR sequences: `bytes` arrive at the terminal `vt`. -/
+def strictDiff (what : String) (bytes : List Nat) (vt : VT) (seqs : Bool) : String :=
+  let ss := strays bytes vt
+  if !ss.isEmpty then
+    s!"{what} sent {ss.length} byte(s) outside any control sequence (hex {bytesHexN (ss.take 12)}): the terminal prints them at the cursor or executes them; only SGR sequences may be emitted"
+  else if seqs && foreign bytes vt ≠ 0 then
+    s!"{what} sent a control sequence that is not an SGR ({foreign bytes vt} offending byte(s))"
+  else ""
+
 /-- value of `key=` in an observation -/
 def field? (ts : List String) (key : String) : Option String :=
   (ts.find? (·.startsWith (key ++ "="))).map (fun t => (t.drop (key.length + 1)).toString)
 
-def specAfter (st : DState) (vt' : VT) (l' : Pen) (bytes : List Nat) (noopCheck : Bool) (chArg : Option Pen := none) : String :=
+def specAfter (st : DState) (vt' : VT) (l' : Pen) (bytes : List Nat) (noopCheck : Bool) (chArg : Option Pen := none)
+    (strict : String := "") : String :=
   if vt'.st ≠ .ground then "the terminal is left inside an unterminated control sequence"
   else
     let fr := match chArg with
@@ -144,6 +163,7 @@ def specAfter (st : DState) (vt' : VT) (l' : Pen) (bytes : List Nat) (noopCheck 
     -- the verdict names what the logical pen wants; the frame clause is added when it fails too
     if d ≠ "" then (if fr ≠ "" then d ++ "; " ++ fr else d)
     else if fr ≠ "" then fr
+    else if strict ≠ "" then strict
     else if noopCheck && l' = st.logical && !bytes.isEmpty then
       s!"request leaves the logical pen unchanged but emits {bytes.length} bytes"
     else ""
@@ -171,7 +191,7 @@ def penOp (st : DState) (op : Op) (impl : String) : DState × String × String :
       | some bs =>
         let bytes := bs.map (·.toNat)
         let vt' := run bytes st.vt
-        (vt', specAfter st vt' l' bytes true chArg)
+        (vt', specAfter st vt' l' bytes true chArg (strictDiff "the pen request" bytes st.vt true))
       | none =>
         (st.vt, if impl.startsWith "CRASH" then s!"the implementation aborted under the sanitizers ({impl})"
                 else s!"no bytes to interpret: implementation said '{impl}'")
@@ -207,8 +227,9 @@ def suspendOp (st : DState) (impl : String) : DState × String × String :=
       match (field? its "p").bind hexBytes?, (field? its "b").bind hexBytes? with
       | some ps, some bs =>
         let bytes := bs.map (·.toNat)
-        let vt' := run bytes (run (ps.map (·.toNat)) st.vt)
-        (vt', pre (specAfter st vt' st.logical bytes false))
+        let pbytes := ps.map (·.toNat)
+        let vt' := run bytes (run pbytes st.vt)
+        (vt', pre (specAfter st vt' st.logical bytes false none (strictDiff "pause + resume" (pbytes ++ bytes) st.vt false)))
       | _, _ => (st.vt, crash)
     ({ st with dead := dead', vt := vt' }, mobs, sv)
   else
@@ -230,6 +251,24 @@ def suspendOp (st : DState) (impl : String) : DState × String × String :=
         | _, _ => (st.vt, crash)
       | none => (st.vt, crash)
     ({ st with vt := vt' }, mobs, sv)
+
+/-- `print <word>`: text between pen requests. -/
+def printOp (st : DState) (word : String) (impl : String) : DState × String × String :=
+  let text := word.toUTF8.toList.map (·.toNat)
+  if st.mode = "x" then
+    let mobs := if st.dead then "ub after-overflow" else s!"b={bytesHexN text} pen={showPen st.cache}"
+    let (vt', sv) : VT × String :=
+      match (field? (toks impl) "b").bind hexBytes? with
+      | some bs =>
+        let bytes := bs.map (·.toNat)
+        let vt' := run bytes st.vt
+        let s := specAfter st vt' st.logical bytes false
+        (vt', if s = "" then "" else "after printing text: " ++ s)
+      | none => (st.vt, if impl.startsWith "CRASH" then s!"the implementation aborted under the sanitizers ({impl})" else "")
+    ({ st with vt := vt' }, mobs, sv)
+  else
+    (st, s!"t={bytesHexN text} pen={showPen st.cache}",
+      if impl.startsWith "CRASH" then s!"the implementation aborted under the sanitizers ({impl})" else "")
 
 def stepBase (st : DState) (ts : List String) (impl : String) : DState × String × String :=
   match ts with
@@ -263,6 +302,8 @@ def stepBase (st : DState) (ts : List String) (impl : String) : DState × String
     else (st, "bad-op", "")
   | ["suspend"] =>
     if st.mode ≠ "x" ∧ st.mode ≠ "g" then (st, "bad-op", "") else suspendOp st impl
+  | ["print", word] =>
+    if st.mode ≠ "x" ∧ st.mode ≠ "g" then (st, "bad-op", "") else printOp st word impl
   | [opname, pen] =>
     if st.mode ≠ "x" ∧ st.mode ≠ "g" then (st, "bad-op", "") else
     match opname, parsePen pen with
